@@ -164,6 +164,98 @@ func main() {
 			e.Strs("collectorFields", flds, "fields of the metaDataCollector struct")
 		}
 
+		// ---- ActiveWriter.Write: the mutex that makes `crun true` (C01's concurrent writers) the right system
+		if f, err := r.Load("frac/active_writer.go"); err != nil {
+			e.Missing("writerLock", err)
+		} else if fd := f.Func("ActiveWriter", "Write"); fd == nil {
+			e.Missing("writerLock", "ActiveWriter.Write not found")
+		} else {
+			var locks []string
+			firstWrite := -1
+			for i, c := range f.Calls(fd.Body) {
+				if strings.HasSuffix(c, ".mu.Lock") || strings.HasSuffix(c, ".mu.Unlock") {
+					locks = append(locks, c)
+				}
+				if firstWrite < 0 && (c == "a.docs.Write" || c == "a.meta.Write") {
+					firstWrite = i
+					locks = append(locks, c)
+				}
+			}
+			var defers []string
+			ast.Inspect(fd.Body, func(n ast.Node) bool {
+				if d, ok := n.(*ast.DeferStmt); ok {
+					defers = append(defers, f.Render(d.Call.Fun))
+				}
+				return true
+			})
+			e.Strs("writerLock", locks, "ActiveWriter.Write: lock / unlock calls and the first file write, source order")
+			e.Strs("writerDefers", defers, "ActiveWriter.Write: deferred calls")
+		}
+
+		// ---- Fetcher.fetchDocsAsync: the scheduling loop and every way out of it
+		if f, err := r.Load("fracmanager/fetcher.go"); err != nil {
+			e.Missing("fetchLoopExits", err)
+		} else if fd := f.Func("Fetcher", "fetchDocsAsync"); fd == nil {
+			e.Missing("fetchLoopExits", "fetchDocsAsync not found")
+		} else {
+			var headers, exits, cases []string
+			ast.Inspect(fd.Body, func(n ast.Node) bool {
+				rs, ok := n.(*ast.RangeStmt)
+				if !ok {
+					return true
+				}
+				headers = append(headers, "for "+f.Render(rs.Key)+", "+f.Render(rs.Value)+" := range "+f.Render(rs.X))
+				// exits of the loop: break / return / goto / continue-with-label anywhere in the loop body that is not
+				// inside a nested function literal, with the select case (or if condition) that guards it
+				var walk func(n ast.Node, guard string)
+				walk = func(n ast.Node, guard string) {
+					switch x := n.(type) {
+					case nil:
+						return
+					case *ast.FuncLit:
+						return
+					case *ast.CommClause:
+						g := "default"
+						if x.Comm != nil {
+							g = "case " + f.Render(x.Comm)
+						}
+						cases = append(cases, g)
+						for _, st := range x.Body {
+							walk(st, g)
+						}
+						return
+					case *ast.IfStmt:
+						g := guard + " if " + f.Render(x.Cond)
+						walk(x.Body, g)
+						walk(x.Else, g+" else")
+						return
+					case *ast.BranchStmt:
+						lbl := ""
+						if x.Label != nil {
+							lbl = " " + x.Label.Name
+						}
+						exits = append(exits, guard+": "+x.Tok.String()+lbl)
+						return
+					case *ast.ReturnStmt:
+						exits = append(exits, guard+": return")
+						return
+					}
+					ast.Inspect(n, func(m ast.Node) bool {
+						if m == n || m == nil {
+							return true
+						}
+						walk(m, guard)
+						return false
+					})
+				}
+				walk(rs.Body, "")
+				return false
+			})
+			e.Strs("fetchLoopHeader", headers, "Fetcher.fetchDocsAsync: the loop over the grouped fractions")
+			e.Strs("fetchLoopCases", cases, "Fetcher.fetchDocsAsync: the cases of the select inside the loop")
+			e.Strs("fetchLoopExits", exits, "Fetcher.fetchDocsAsync: every break / return / goto inside the loop (outside the worker closure) with its guard")
+		}
+
 		// ---- MergeQPRs: sort, then removeRepetitionsAdvanced, then total correction, then cut to limit
 		if f, err := r.Load("seq/qpr.go"); err != nil {
 			e.Missing("mergeOrder", err)
@@ -210,5 +302,5 @@ func main() {
 				e.Strs("repetitionConds", conds, "if conditions of removeRepetitionsAdvanced")
 			}
 		}
-	}, "seq/doc_pos.go", "frac/active_indexer.go", "frac/active_docs_positions.go", "frac/meta_data_collector.go", "seq/qpr.go")
+	}, "seq/doc_pos.go", "frac/active_indexer.go", "frac/active_docs_positions.go", "frac/meta_data_collector.go", "seq/qpr.go", "fracmanager/fetcher.go", "frac/active_writer.go")
 }
